@@ -1551,6 +1551,8 @@ func checkC09Again(c C09Case, e *c09Entry) *Failure {
 	if !wellFormed(c2) {
 		return nil
 	}
+	var firstOut outcome
+	var firstExp expect
 	for round, cc := range []C09Case{c, c2} {
 		if round == 1 {
 			// the caller changes its own slice in place and calls again
@@ -1569,6 +1571,33 @@ func checkC09Again(c C09Case, e *c09Entry) *Failure {
 		}
 		if f := judgeC09(cc, exp, o, fmt.Sprintf(" (call %d of 2 on the same receiver with the same argument slice objects)", round+1)); f != nil {
 			return f
+		}
+		if round == 0 {
+			firstOut, firstExp = o, exp
+		} else if firstOut.isTensor && firstOut.tensor != nil && firstOut.err == nil {
+			// the result of the first call is still the well-formed tensor it was, although the
+			// caller changed its slice and called again
+			ex, p, hung := guardedCall(func() outcome {
+				if firstExp.checkShape && firstExp.valid {
+					s, _, err := lib.Read(firstOut.tensor)
+					if err != nil {
+						return outcome{note: "not readable through At: " + err.Error()}
+					}
+					if !ref.EqShape(s, firstExp.shape) {
+						return outcome{note: fmt.Sprintf("shape %v, was %v", s, firstExp.shape)}
+					}
+				}
+				return outcome{note: exerciseResult(firstOut.tensor, x)}
+			})
+			if hung {
+				return failf("%s: a call on the first result: %v", c.Entry, errHang)
+			}
+			if p != nil {
+				return failf("%s: after the caller changed its argument slice and called again, a call on the FIRST result panicked: %v", c.Entry, p)
+			}
+			if ex.note != "" {
+				return failf("%s: after the caller changed its argument slice and called again, the FIRST result is no longer well-formed: %s", c.Entry, ex.note)
+			}
 		}
 	}
 	evid.Eval()
